@@ -15,6 +15,7 @@ import (
 // c10Round4: three structural necessary conditions of "block processing never fails".
 func c10Round4(c *Ctx, g *CG) {
 	c10GovernanceModel(c, g)
+	c10ProposalIDs(c)
 	// (a) seed C10r4/10: what governance EndBlock takes out of the governance deposits pool for a closing proposal is the
 	// amount recorded in that proposal (the amount that was put into the pool for it at submission). Any other amount
 	// (e.g. the current MinProposalDeposit parameter, which a passed change-parameters proposal can raise) can exceed what
@@ -852,4 +853,233 @@ func c10VRFProofWriters(c *Ctx) {
 		c.DominatedByCond(rule, fn, "proof.Verify(alpha) ok", `^common/crypto/signature\.\(\*Proof\)\.Verify\(.*\)#0$`, Ev{Name: "store into the VRF proof map", Fn: fn, Ins: ups}, "a VRF proof is stored only after it verified: the next epoch transition extracts its output with UnsafeToHash, which panics (in BeginBlock, on every node) for a proof that does not decode")
 	}
 	c.Floor(rule, n, 1, "functions that store VRF proofs")
+}
+
+// errPathNilDerefs: call sites `v, err := f(...)` of module functions where f returns a nil v with every non-nil error
+// it makes itself, and v is dereferenced on a path on which err is known to be non-nil (the failure edge of the error
+// test, or an arm of a switch on err that compares it with a non-nil sentinel).
+func errPathNilDerefs(g *CG, fn *ssa.Function) []ssa.Instruction {
+	var out []ssa.Instruction
+	for _, call := range callsIn(fn) {
+		cv := call.Value()
+		if cv == nil {
+			continue
+		}
+		tup, ok := cv.Type().(*types.Tuple)
+		if !ok || tup.Len() != 2 || !isErrorType(tup.At(1).Type()) {
+			continue
+		}
+		if _, isPtr := tup.At(0).Type().Underlying().(*types.Pointer); !isPtr {
+			continue
+		}
+		var impls []*ssa.Function
+		if call.Common().IsInvoke() {
+			impls = g.impls[tfname(call.Common().Method)]
+		} else if callee := call.Common().StaticCallee(); callee != nil {
+			impls = []*ssa.Function{callee}
+		}
+		if len(impls) == 0 {
+			continue
+		}
+		nilOnErr := true
+		for _, f := range impls {
+			if f.Blocks == nil {
+				nilOnErr = false
+				break
+			}
+			for _, r := range Returns(f) {
+				if r.Block() == f.Recover {
+					continue // the synthetic exit after a recovered panic re-reads the spilled results
+				}
+				if len(r.Results) != 2 {
+					nilOnErr = false
+					continue
+				}
+				if isNilConst(unspill(r.Results[1])) {
+					continue
+				}
+				if !isNilConst(unspill(r.Results[0])) {
+					nilOnErr = false
+				}
+			}
+		}
+		if !nilOnErr {
+			continue
+		}
+		var val, errv ssa.Value
+		if refs := cv.Referrers(); refs != nil {
+			for _, r := range *refs {
+				if ex, ok := r.(*ssa.Extract); ok {
+					if ex.Index == 0 {
+						val = ex
+					} else {
+						errv = ex
+					}
+				}
+			}
+		}
+		if val == nil || errv == nil {
+			continue
+		}
+		// edges on which err is known non-nil
+		var bad, nilEdges []Edge
+		for _, b := range fn.Blocks {
+			iff := lastIfOf(b)
+			if iff == nil {
+				continue
+			}
+			bo, ok := iff.Cond.(*ssa.BinOp)
+			if !ok || (bo.Op != token.EQL && bo.Op != token.NEQ) {
+				continue
+			}
+			var other ssa.Value
+			if bo.X == errv {
+				other = bo.Y
+			} else if bo.Y == errv {
+				other = bo.X
+			} else {
+				continue
+			}
+			if isNilConst(other) {
+				if bo.Op == token.NEQ {
+					bad = append(bad, Edge{b, 0})
+					nilEdges = append(nilEdges, Edge{b, 1})
+				} else {
+					bad = append(bad, Edge{b, 1})
+					nilEdges = append(nilEdges, Edge{b, 0})
+				}
+				continue
+			}
+			// err == <sentinel>: a load of a package-level error variable
+			if u, ok := other.(*ssa.UnOp); ok {
+				if _, isG := u.X.(*ssa.Global); isG {
+					if bo.Op == token.EQL {
+						bad = append(bad, Edge{b, 0})
+					} else {
+						bad = append(bad, Edge{b, 1})
+					}
+				}
+			}
+		}
+		// on the not-equal edge of a sentinel test err may still be nil: only the equal edge is an error path
+		if len(bad) == 0 {
+			continue
+		}
+		var derefs []ssa.Instruction
+		if refs := val.Referrers(); refs != nil {
+			for _, r := range *refs {
+				switch x := r.(type) {
+				case *ssa.FieldAddr:
+					if x.X == val {
+						derefs = append(derefs, x)
+					}
+				case *ssa.UnOp:
+					if x.Op == token.MUL && x.X == val {
+						derefs = append(derefs, x)
+					}
+				}
+			}
+		}
+		if len(derefs) == 0 {
+			continue
+		}
+		// reachable from an error edge without passing an edge on which err is nil again (loops) — start at each
+		// bad edge; the opposite edges of the same tests are not taken by construction.
+		for _, e := range bad {
+			// do not walk through the success edge of any test of the same err, nor through the non-nil edge of a
+			// test of the value itself
+			v := val
+			cut := nonNilCut(fn, func(subj ssa.Value) bool { return subj == v })
+			for _, e2 := range nilEdges {
+				cut.AddEdges(e2)
+			}
+			if hit := ReachPS(fn, []Edge{e}, anyOf(derefs), cut); hit != nil {
+				out = append(out, hit)
+				break
+			}
+		}
+	}
+	return out
+}
+
+// c10ErrPathNil: on the block-execution cone no result pointer is dereferenced on the error path of the call that
+// returned it (where the callee returns nil together with its errors): the dereference panics exactly when the error
+// occurs — in a branch that exists to handle the error.
+func c10ErrPathNil(c *Ctx, g *CG, cone []*ssa.Function) {
+	n, nd := 0, 0
+	for _, f := range cone {
+		if f.Blocks == nil || !inModule(fpkgPath(f)) {
+			continue
+		}
+		n++
+		for _, hit := range errPathNilDerefs(g, f) {
+			nd++
+			key := fname(f) + ":" + vstr(hit.(ssa.Value))
+			c.Fail("C10.nilerr", key, c.P.InstrPos(hit), "a pointer result is dereferenced on the error path of the call that returned it, and the callee returns nil with its errors: the handler of the error panics with a nil dereference instead of handling it")
+		}
+	}
+	c.Check(true, "C10.nilerr", "functions on the block-execution cone scanned for dereferences of a nil result on the error path", "", itoa(n)+" functions, "+itoa(nd)+" findings", "")
+	c.Floor("C10.nilerr", n, 500, "functions on the cone")
+}
+
+// c10ProposalIDs (F61): a submitted proposal is stored under "largest genesis identifier + 1" without looking whether
+// that identifier is taken, so the genesis sanity check must not let an iteration of its loop over the proposals
+// complete without having tested the identifier against the maximum (the counter would wrap to an existing proposal)
+// and against the identifiers seen so far.
+func c10ProposalIDs(c *Ctx) {
+	const rule = "C10.support"
+	fn := c.needFn(rule, "governance/api.SanityCheckProposals")
+	if fn == nil {
+		return
+	}
+	c.Analysed[fname(fn)] = true
+	var hdr []Edge
+	for _, b := range fn.Blocks {
+		iff := lastIfOf(b)
+		if iff == nil {
+			continue
+		}
+		if regexp.MustCompile(`< builtin\.len\(param:proposals\)$`).MatchString(normCond(iff.Cond, true)) {
+			hdr = append(hdr, Edge{b, 0})
+		}
+	}
+	inst := fname(fn) + ":every proposal's identifier is tested against the maximum and against the ones seen"
+	if len(hdr) != 1 {
+		c.Fail(rule, inst, c.P.Pos(fn.Pos()), "the loop over the proposals was not found (unresolved anchor)")
+		return
+	}
+	head := hdr[0].From
+	backToHead := func(in ssa.Instruction) bool { return in.Block() == head && in == head.Instrs[0] }
+	okMax := HeldEdges(fn, `\.ID != 18446744073709551615$`)
+	var okSeen []Edge
+	for _, b := range fn.Blocks {
+		iff := lastIfOf(b)
+		if iff == nil {
+			continue
+		}
+		cond, pol := stripNot(iff.Cond, true)
+		ex, ok := cond.(*ssa.Extract)
+		if !ok || ex.Index != 1 {
+			continue
+		}
+		if lk, ok := ex.Tuple.(*ssa.Lookup); ok && lk.CommaOk && loadsField(lk.Index, "ID") {
+			// the edge on which the identifier was NOT seen before
+			if pol {
+				okSeen = append(okSeen, Edge{b, 1})
+			} else {
+				okSeen = append(okSeen, Edge{b, 0})
+			}
+		}
+	}
+	bad := ""
+	if len(okMax) == 0 || Reach(fn, nil, hdr, backToHead, NewCut().AddEdges(okMax...)) != nil {
+		bad = "an iteration can complete without the identifier having been compared with the maximum (the next-identifier counter wraps to an existing proposal)"
+	}
+	if len(okSeen) == 0 || Reach(fn, nil, hdr, backToHead, NewCut().AddEdges(okSeen...)) != nil {
+		if bad != "" {
+			bad += "; "
+		}
+		bad += "an iteration can complete without the identifier having been looked up among the ones seen so far (duplicate identifiers)"
+	}
+	c.Check(bad == "", rule, inst, c.P.Pos(fn.Pos()), "no iteration of the loop completes without both tests", "SanityCheckProposals accepts proposals whose identifiers collide with the next identifier or with each other: "+bad+" — a transaction-submitted proposal then replaces a stored one, and when that was a passed upgrade proposal governance BeginBlock fails at the next epoch transition (F61)")
 }
